@@ -1,22 +1,38 @@
 """Generator of the C18 program matrix: sugar forms x positions x arities x
 named/positional inputs, as Circom source text.  Every program is small: a
 fixed prelude of callee templates (0..3 inputs, 0..3 outputs, one with a
-parameter) and a function, then ONE definition (template `T` or function `g`)
+parameter; written in the spellings that decide the recorded port order, see
+PRELUDE / PORTS) and a function, then ONE definition (template `T` or function `g`)
 whose body contains the position with the sugar form filled in."""
 
+# The callee templates are written in the spellings that decide the recorded port order
+# (template_data.rs `fill_inputs_and_outputs`): several symbols in one declaration (A2, A3,
+# B22, B23), outputs declared before inputs (B22), ports declared under control flow (B12:
+# both branches of an `if`, A3: a block), a tagged port (B10), an initialised output (A0).
+# The DECLARED order is what PORTS below states (written down independently of any reader
+# of the AST: oracle `port order` of lib/props/C18.py compares it with what TemplateData
+# records); the e2e tables of C18.py wire inputs in this order.
 PRELUDE = """pragma circom 2.0.0;
-template A0() { signal output y; y <== 1; }
+template A0() { signal output y <== 1; }
 template A1() { signal input x1; signal output y; y <== x1; }
-template A2() { signal input x1; signal input x2; signal output y; y <== x1 + x2; }
-template A3() { signal input x1; signal input x2; signal input x3; signal output y; y <== x1 + x2 + x3; }
+template A2() { signal input x1, x2; signal output y; y <== x1 + x2; }
+template A3() { signal input x1; { signal input x2, x3; } signal output y; y <== x1 + x2 + x3; }
 template B00() { var k = 0; }
-template B10() { signal input x1; x1 === 0; }
-template B12() { signal input x1; signal output y1; signal output y2; y1 <== x1; y2 <== x1; }
-template B22() { signal input x1; signal input x2; signal output y1; signal output y2; y1 <== x1; y2 <== x2; }
-template B23() { signal input x1; signal input x2; signal output y1; signal output y2; signal output y3; y1 <== x1; y2 <== x2; y3 <== x1; }
+template B10() { signal input {tg} x1; x1 === 0; }
+template B12() { signal input x1; if (1 == 1) { signal output y1; } else { signal output y2; } y1 <== x1; y2 <== x1; }
+template B22() { signal output y1, y2; signal input x1, x2; y1 <== x1; y2 <== x2; }
+template B23() { signal input x1, x2; signal output y1, y2, y3; y1 <== x1; y2 <== x2; y3 <== x1; }
 template P1(n) { signal input x1; signal output y; y <== x1 * n; }
 function f1(x) { return x + 1; }
 """
+
+# name -> (inputs, outputs) as (name, number of dimensions), in DECLARATION order
+PORTS = {
+    "A0": ([], [("y", 0)]), "A1": ([("x1", 0)], [("y", 0)]), "A2": ([("x1", 0), ("x2", 0)], [("y", 0)]),
+    "A3": ([("x1", 0), ("x2", 0), ("x3", 0)], [("y", 0)]), "B00": ([], []), "B10": ([("x1", 0)], []),
+    "B12": ([("x1", 0)], [("y1", 0), ("y2", 0)]), "B22": ([("x1", 0), ("x2", 0)], [("y1", 0), ("y2", 0)]),
+    "B23": ([("x1", 0), ("x2", 0)], [("y1", 0), ("y2", 0), ("y3", 0)]), "P1": ([("x1", 0)], [("y", 0)]),
+}
 
 # ---- sugar forms: (label, text, class) -----------------------------------
 # class: "tuple" | "anon" ; `a b c` are input signals, `v w` vars of the host
@@ -221,9 +237,9 @@ CONTROLS = [
 ]
 
 
-def program(host, body, extra=""):
+def program(host, body, extra="", prelude=None):
     h = HOST_T if host == "T" else HOST_F
-    return PRELUDE + extra + h.format(BODY=body)
+    return (PRELUDE if prelude is None else prelude) + extra + h.format(BODY=body)
 
 
 def matrix():
